@@ -659,6 +659,37 @@ func runC10(c *fw.Case) {
 			}
 		}
 	}
+	// an enum column and its upper-cased derivative (which shares the cell storage but has another value list)
+	if c1 := root.Shadow.Col("e1"); c1 != nil && c1.Kind == model.KEnum {
+		vals := c1.EnumVals
+		if !c1.Strict() {
+			vals = nil
+			for _, p := range c1.S {
+				if p != nil {
+					vals = append(vals, *p)
+				}
+			}
+		}
+		changes := false
+		for _, v := range vals {
+			changes = changes || strings.ToUpper(v) != v
+		}
+		var up qframe.QFrame
+		if changes && c.GuardFail("Apply", "Apply ToUpper on enum", func() {
+			up = qf.Apply(qframe.Instruction{Fn: "ToUpper", DstCol: "e1-upper", SrcCol1: "e1"})
+		}) && up.Err == nil {
+			for _, cmp := range []string{"=", "!=", "<", ">="} {
+				for _, pair := range [][2]string{{"e1", "e1-upper"}, {"e1-upper", "e1"}} {
+					fl := qframe.Filter{Column: pair[0], Comparator: cmp, Arg: types.ColumnName(pair[1]), Inverse: rng.Intn(2) == 0}
+					c.Count("enum_type_mismatch:upper-cased-derivative", 1)
+					judge(fmt.Sprintf("Filter enum column %s %s enum column %s (one is the ToUpper derivative of the other, the value lists differ)", pair[0], cmp, pair[1]), "Filter", true, func() qframe.QFrame { return up.Filter(fl) })
+					if c.Failed() {
+						return
+					}
+				}
+			}
+		}
+	}
 	sp := func(s string) *string { return &s }
 	apply1 := []tfn{
 		{"i", "func(int) int", func(int) int { cb.hit(); return 1 }}, {"i", "func(int) float64", func(int) float64 { cb.hit(); return 1 }}, {"i", "func(int) bool", func(int) bool { cb.hit(); return true }}, {"i", "func(int) *string", func(int) *string { cb.hit(); return sp("x") }},
